@@ -23,7 +23,7 @@ class ToGFA2:
     rpos = self.pos + self.overlap.length_on_reference()
     if rpos == self._lastpos_of("from_segment"):
       rpos = gfapy.LastPos(rpos)
-    return [self.pos, rpos]
+    return [self._pos_on("from_segment", self.pos), rpos]
 
   @property
   def to_coords(self):
